@@ -67,69 +67,71 @@ type Config struct {
 	TimeoutMs  int
 	SolverKind string
 	// known-finding id -> set of assertion ids it may excuse ("*" = any)
-	Known map[string]map[string]bool
-	Trace    bool
-	SelfSamples int // per worker: returned paths sampled for translation validation
-	Cross    string // secondary solver for cross-checking assertion queries ("" = off)
-	Thorough bool
-	Disable  map[string]bool
+	Known       map[string]map[string]bool
+	Trace       bool
+	SelfSamples int    // per worker: returned paths sampled for translation validation
+	Cross       string // secondary solver for cross-checking assertion queries ("" = off)
+	Thorough    bool
+	Disable     map[string]bool
 }
 
 type Exec struct {
-	ld     *Loaded
-	tt     *TermTable
-	solver *Solver
-	cross  *Solver
+	ld           *Loaded
+	tt           *TermTable
+	solver       *Solver
+	cross        *Solver
 	crossChecked int
-	cfg    Config
+	cfg          Config
 
 	harness string
 
 	// per path
-	pc        []*Term
-	prefix    []Decision
-	taken     []Decision
-	pending   [][]Decision
-	globals   map[*ssa.Global]*Value
-	steps     int64
-	varCount  map[string]int
-	inputs    []string
-	regions   []region
-	res       *PathResult
-	reaches   map[string]bool
-	trace     []Value
-	sched     *Sched
-	unwind    int
-	allowPanic bool
-	allowDeadlock bool
-	errSeq    int
-	objs      map[string]Value // per-path named singletons (opaque objects)
-	clock     *Term
-	model       map[string]uint64 // satisfies the current pc when non-nil
-	codecLog    []codecEntry
-	fsTrace     []fsEvent
-	fsSeq       int
-	fsModelOn   bool
+	pc             []*Term
+	prefix         []Decision
+	taken          []Decision
+	pending        [][]Decision
+	globals        map[*ssa.Global]*Value
+	steps          int64
+	varCount       map[string]int
+	inputs         []string
+	regions        []region
+	res            *PathResult
+	reaches        map[string]bool
+	trace          []Value
+	sched          *Sched
+	unwind         int
+	allowPanic     bool
+	allowDeadlock  bool
+	spinLimit      int // rt.SpinLimit: a goroutine other than main looping this often through one block without handing over is parked
+	spinParked     int
+	errSeq         int
+	objs           map[string]Value // per-path named singletons (opaque objects)
+	clock          *Term
+	model          map[string]uint64 // satisfies the current pc when non-nil
+	codecLog       []codecEntry
+	fsTrace        []fsEvent
+	fsSeq          int
+	fsModelOn      bool
 	fsStatFromWalk bool
-	fsFaultBudget int
-	stubSeq     int
-	callerFile  Str
-	callerLine  *Term
-	curFn       *ssa.Function
-	fsStatDirs  bool
-	fsFaultOps  map[string]bool
-	walkList    []walkEntry
-	zipList     []zipEntry
-	gzipLog     []gzipEntry
-	codecHits   int
-	havocSeq    int
-	mapOrderAny bool
-	observed    []string
-	observedT   []obsEntry
-	selfSamples []SelfSample // concrete samples of returned paths (translation validation)
-	selfSeen int
-	codecNoFaults bool // rt.CodecFaults(false): marshal stubs never fail
-	selfWant    int
+	fsFaultBudget  int
+	stubSeq        int
+	callerFile     Str
+	callerLine     *Term
+	curFn          *ssa.Function
+	fsStatDirs     bool
+	fsFaultOps     map[string]bool
+	walkList       []walkEntry
+	zipList        []zipEntry
+	gzipLog        []gzipEntry
+	codecHits      int
+	havocSeq       int
+	mapOrderAny    bool
+	observed       []string
+	observedT      []obsEntry
+	selfSamples    []SelfSample // concrete samples of returned paths (translation validation)
+	selfSeen       int
+	codecNoFaults  bool // rt.CodecFaults(false): marshal stubs never fail
+	selfWant       int
 
 	// statistics over the whole run
 	funcsSeen map[*ssa.Function]int
